@@ -29,6 +29,7 @@ type cexFile struct {
 	Sched    []int               `json:"sched,omitempty"`
 	Trace    []string            `json:"trace,omitempty"`
 	Decis    []int               `json:"decisions,omitempty"`
+	Threads  int                 `json:"threads,omitempty"`
 	Replay   string              `json:"replay_cmd"`
 }
 
@@ -139,14 +140,26 @@ func writeOverlay(P *Program, verif, dir, harness string) (string, string, error
 	return ovPath, pkgDir, nil
 }
 
+// replayNative runs the harness natively with the counterexample's values.  A
+// schedule-dependent counterexample may need several attempts on the real
+// scheduler: when the first run does not reproduce and the path had more than
+// one thread, the replay is repeated (one build, many runs).
 func replayNative(P *Program, verif string, cex *cexFile, cexPath string) replayOutcome {
+	o := replayNativeN(P, verif, cex, cexPath, 1)
+	if !o.reproduced && !o.buildFail && !o.assumeFail && cex.Threads > 1 {
+		o = replayNativeN(P, verif, cex, cexPath, 60)
+	}
+	return o
+}
+
+func replayNativeN(P *Program, verif string, cex *cexFile, cexPath string, count int) replayOutcome {
 	ovPath, pkgDir, err := writeOverlay(P, verif, cex.Dir, cex.Harness)
 	if err != nil {
 		return replayOutcome{buildFail: true, output: err.Error()}
 	}
-	ctx, cancel := context.WithTimeout(context.Background(), 180*time.Second)
+	ctx, cancel := context.WithTimeout(context.Background(), 400*time.Second)
 	defer cancel()
-	cmd := exec.CommandContext(ctx, "go", "test", "-tags", "verif", "-vet=off", "-count=1", "-timeout", "40s",
+	cmd := exec.CommandContext(ctx, "go", "test", "-tags", "verif", "-vet=off", "-count="+strconv.Itoa(count), "-timeout", "300s",
 		"-overlay", ovPath, "-run", "^TestVerifReplay$", ".")
 	cmd.Dir = pkgDir
 	cmd.Env = append(os.Environ(), "GOFLAGS=-mod=mod", "GOPROXY=off", "GOSUMDB=off", "GOTOOLCHAIN=local",
@@ -177,7 +190,7 @@ func runReplayFile(repo, verif, file string) int {
 		fmt.Fprintln(os.Stderr, err)
 		return 2
 	}
-	P, err := loadProgram(repo, verif+"/harness")
+	P, err := loadProgram(repo, verif+"/harness", cex.Dir)
 	if err != nil {
 		fmt.Fprintln(os.Stderr, "load:", err)
 		return 2
@@ -234,7 +247,11 @@ func runCheck(repo, verif, prop, tier string, workers int, solver string) int {
 	os.MkdirAll(filepath.Join(verif, "out", "cex"), 0o755)
 
 	inconclusive := []string{}
-	P, err := loadProgram(repo, verif+"/harness")
+	var dirs []string
+	for _, h := range spec.Harnesses {
+		dirs = append(dirs, h.Dir)
+	}
+	P, err := loadProgram(repo, verif+"/harness", dirs...)
 	if err != nil {
 		fmt.Printf("INCONCLUSIVE property=%s: %v\n", prop, err)
 		writeEvidence(evPath, prop, tier, seed, spec, nil, 0, 0, nil, []string{"load failed: " + err.Error()}, nil, time.Since(t0), P)
@@ -329,7 +346,7 @@ func runCheck(repo, verif, prop, tier string, workers int, solver string) int {
 			sum := sha256.Sum256([]byte(s))
 			cexPath := filepath.Join(verif, "out", "cex", fmt.Sprintf("%s_%s_%x.json", prop, h.Name, sum[:4]))
 			cex := &cexFile{Property: prop, Harness: h.Name, Dir: h.Dir, Tier: tier, What: v.What, Sig: s, Model: v.Model,
-				Sched: v.Sched, Trace: v.Trace, Decis: v.Decis, Replay: "./bin/gosym replay " + cexPath}
+				Sched: v.Sched, Trace: v.Trace, Decis: v.Decis, Threads: v.Threads, Replay: "./bin/gosym replay " + cexPath}
 			b, _ := json.MarshalIndent(cex, "", " ")
 			os.WriteFile(cexPath, b, 0o644)
 			o := replayNative(P, verif, cex, cexPath)
